@@ -332,6 +332,30 @@ def nonperiodic_job(args):
         td = 16 * EPS * (np.abs(x0).max() + T + 1.0)
         rotated = not np.allclose(R, np.eye(3))
         compare(c, o0, o1, 0, 0, x0, td, ix, "rotation #%d, translation %g nm" % (rot_idx, T), False, radii=radii, rotated=rotated)
+    if rot_idx == 0 and sname == "2EQQ":
+        # a LARGE system (30 000 atoms in a 10 nm cube) far from the origin: centring must bring the centroid to the origin
+        # wherever the system sits.  With the mean accumulated in double the residual is rounding of the stored float32
+        # coordinates (<= ~1 ulp of the distance from the origin); sums accumulated in float32 lose it for 1e4+ atoms.
+        n_big = 30000
+        u = np.array([[grids.halton(i + 1 + 13 * seed, b) for b in (2, 3, 5)] for i in range(n_big)]) * 10.0
+        btop = md.Topology()
+        bch = btop.add_chain()
+        bres = btop.add_residue("BIG", bch)
+        for _ in range(n_big):
+            btop.add_atom("C", md.element.carbon, bres)
+        for Tv in ([0.0, 0.0, 0.0], [300.0, 0.0, 0.0], [-200.0, 250.0, 150.0], [123.0, -321.0, 217.0]):
+            big = md.Trajectory((u + np.array(Tv))[None].astype(np.float32), btop)
+            big.center_coordinates()
+            resid = float(np.abs(big.xyz[0].astype(np.float64).mean(0)).max())
+            tol = 4 * float(np.spacing(np.float32(np.abs(Tv).max() + 10.0)))
+            c.n += 1
+            c.worst["center-large-system"] = max(c.worst.get("center-large-system", 0.0), resid / tol)
+            if resid > tol:
+                c.viol.append(("rigid|large-system|center_coordinates|centroid-depends-on-position",
+                               "30000 atoms translated by %s nm: centroid after center_coordinates() is %.3g nm from the origin (allowed %.3g)"
+                               % (Tv, resid, tol), {"kind": "rigid", "structure": "2EQQ", "rotation": 0}))
+            else:
+                c.nontrivial += 1
     return c.viol, c.n, c.nontrivial, c.excluded, c.worst
 
 
